@@ -180,6 +180,112 @@ theorem ext_upolyAdditive_define {q p n : Nat} {g : List Nat} (hq : q < 2 ^ 64)
     omega
   exact ext_upoly_additive M hn63 L hL hv hun mod hm hf₁ hf₂ hl₁ hl₂
 
+/-! ### the assembled statement
+
+  `C15_full` of `Props/C15.lean` with the bounds it lacks — cardinality `q < 2^64` (the `Define`
+  lemmas of C03/C01 are stated for machine-word cardinalities), at most `2^63` coefficients of a
+  univariate polynomial (`strconv.ParseInt` on the exponent) — and with the bivariate part
+  restricted to what is proved: clause 1 in the printers' own notation, clause 2 without ideal.
+  What this omits relative to `C15_full` is exactly `C15Full_remaining` (`BNotations` for `N ≠ {}`,
+  `BAddQuot`). -/
+
+/-- the proved part of `BPolyRoundTrip` -/
+def BPolyRoundTripP {α : Type} (S : FieldSpec α) : Prop :=
+  ∀ (x y : String) (ord : Order),
+    AdmissibleName x → AdmissibleName y → Unconfusable x y →
+    (∀ w, S.ownVar = some w → Unconfusable x w ∧ Unconfusable y w) →
+    (∀ (ideal : Option (List (BPoly α))) f,
+      BValid S { F := S.F, ord := ord, varNames := (x, y), ideal := ideal } f →
+      ∃ g, BPoly.parse { F := S.F, ord := ord, varNames := (x, y), ideal := ideal }
+          (BPoly.toStr { F := S.F, ord := ord, varNames := (x, y), ideal := ideal } f) = .ok (some g) ∧
+        BPoly.equal S.F f g = true) ∧
+    (∀ f₁ f₂, BValid S { F := S.F, ord := ord, varNames := (x, y), ideal := none } f₁ →
+      BValid S { F := S.F, ord := ord, varNames := (x, y), ideal := none } f₂ →
+      ∃ g, BPoly.parse { F := S.F, ord := ord, varNames := (x, y), ideal := none }
+          (BPoly.toStr { F := S.F, ord := ord, varNames := (x, y), ideal := none } f₁ ++ " + " ++
+            BPoly.toStr { F := S.F, ord := ord, varNames := (x, y), ideal := none } f₂) =
+              .ok (some g) ∧
+        BPoly.equal S.F g (BPoly.add S.F f₁ f₂) = true)
+
+def FieldRoundTripB {α : Type} (S : FieldSpec α) : Prop :=
+  ElemRoundTrip S ∧ UPolyRoundTripB S ∧ BPolyRoundTripP S
+
+theorem prime_fieldRoundTripB {p : Nat} (hq : p < 2 ^ 64) (hd : Define.prime p = .ok (.prime p)) :
+    FieldRoundTripB (primeSpec p) := by
+  obtain ⟨_, hp, h32⟩ := (C03.define_prime_iff hq _).1 hd
+  refine ⟨C15_partial p hd, ?_, ?_⟩
+  · intro v mod hv _ hm
+    exact ⟨fun f hf hlen N hN => prime_upoly_notation hp h32 hv mod hf hlen N hN,
+      fun f₁ f₂ h1 h2 l1 l2 => prime_upoly_additive hp h32 hv mod hm h1 h2 l1 l2⟩
+  · intro x y ord hx hy hxy _
+    refine ⟨fun ideal f hf => ?_, fun f₁ f₂ h1 h2 => ?_⟩
+    · have := prime_bpoly_roundtrip hp h32 hx hy hxy ord ideal hf
+      rwa [bToStrN_default] at this
+    · exact prime_bpoly_additive hp h32 hx hy hxy ord none h1 h2 (fun gs h => by cases h)
+
+theorem bin_fieldRoundTripB {q n m : Nat} {w : String} (hq : q < 2 ^ 64)
+    (hd : Define.bin Gen.dbText q = .ok (.bin n m)) (hw : AdmissibleName w) :
+    FieldRoundTripB (binSpec n m w) := by
+  obtain ⟨n', m', cs, he, _, h1, h32, _, _, ⟨hm1, hm2⟩, _, _, hF, _⟩ :=
+    C01.define_bin_lawful hq hd
+  injection he with e1 e2
+  subst e1 e2
+  have hn : n < 64 := by omega
+  let L := BinField.binLawful h1 (by omega) hm1 hm2 w
+  have hL : ∀ a, L.valid a ↔ a < 2 ^ n := fun _ => Iff.rfl
+  refine ⟨bin_elemRoundTrip hw m hn, ?_, ?_⟩
+  · intro v mod hv hun hm
+    have hvw : Unconfusable v w := hun w rfl
+    exact ⟨fun f hf hlen N hN => bin_upoly_notation L hL hw hn hv hvw mod hf hlen N hN,
+      fun f₁ f₂ k1 k2 l1 l2 => bin_upoly_additive L hL hw hn hv hvw mod hm k1 k2 l1 l2⟩
+  · intro x y ord hx hy hxy hun
+    obtain ⟨hxw, hyw⟩ := hun w rfl
+    refine ⟨fun ideal f hf => ?_, fun f₁ f₂ k1 k2 => ?_⟩
+    · have := bin_bpoly_roundtrip L hL hw hn hx hy hxy hxw hyw ord ideal hf
+      rwa [bToStrN_default] at this
+    · exact bin_bpoly_additive L hL hw hn hx hy hxy hxw hyw ord none k1 k2
+        (fun gs h => by cases h)
+
+theorem ext_fieldRoundTripB {q p n : Nat} {g : List Nat} (hq : q < 2 ^ 64)
+    (hd : Define.ext Gen.dbText q = .ok (.ext p n g)) : FieldRoundTripB (extSpec p n g) := by
+  have helem := ext_elemRoundTrip_define hq hd
+  obtain ⟨p', n', g', hF, h32, he, hp, hqe, hn, _, M, _, _, hF2, L, hL, _⟩ :=
+    C01.define_ext_lawful hq hd
+  injection he with e1 e2 e3
+  subst e1 e2 e3
+  have hn63 : n ≤ 2 ^ 63 := by
+    have h1 : 2 ^ n ≤ p ^ n := Nat.pow_le_pow_left hp.two_le n
+    have h2 : 2 ^ n < 2 ^ 64 := by omega
+    have := (Nat.pow_lt_pow_iff_right (by norm_num : 1 < 2)).1 h2
+    omega
+  refine ⟨helem, ?_, ?_⟩
+  · intro v mod hv hun hm
+    have hva : Unconfusable v "a" := hun "a" rfl
+    exact ⟨fun f hf hlen N hN => ext_upoly_notation M hn63 L hL hv hva mod hf hlen N hN,
+      fun f₁ f₂ k1 k2 l1 l2 => ext_upoly_additive M hn63 L hL hv hva mod hm k1 k2 l1 l2⟩
+  · intro x y ord hx hy hxy hun
+    obtain ⟨hxw, hyw⟩ := hun "a" rfl
+    refine ⟨fun ideal f hf => ?_, fun f₁ f₂ k1 k2 => ?_⟩
+    · have := ext_bpoly_roundtrip M hn63 L hL hx hy hxy hxw hyw ord ideal hf
+      rwa [bToStrN_default] at this
+    · exact ext_bpoly_additive M hn63 L hL hx hy hxy hxw hyw ord none k1 k2
+        (fun gs h => by cases h)
+
+/-- **C15, assembled (bounded, without `C15Full_remaining`).**  Over every field the three `Define`
+    functions of the model return for a cardinality `q < 2^64`, and every admissible renaming of a
+    binary field's variable: element round trip; univariate round trip in EVERY notation and
+    additivity (at most `2^63` coefficients), in every ring and quotient ring; bivariate round
+    trip in the printers' notation for every order and ideal; bivariate additivity without ideal. -/
+theorem C15_full_bounded_partial :
+    (∀ p, p < 2 ^ 64 → Define.prime p = .ok (.prime p) → FieldRoundTripB (primeSpec p)) ∧
+    (∀ q n m v, q < 2 ^ 64 → Define.bin Gen.dbText q = .ok (.bin n m) → AdmissibleName v →
+      FieldRoundTripB (binSpec n m v)) ∧
+    (∀ q p n g, q < 2 ^ 64 → Define.ext Gen.dbText q = .ok (.ext p n g) →
+      FieldRoundTripB (extSpec p n g)) :=
+  ⟨fun _ hq hd => prime_fieldRoundTripB hq hd,
+   fun _ _ _ _ hq hd hv => bin_fieldRoundTripB hq hd hv,
+   fun _ _ _ _ hq hd => ext_fieldRoundTripB hq hd⟩
+
 -- non-vacuity (as in `Props/C01.lean`: the lookup fact of the real database as hypothesis)
 example (h : Conway.lookupIn Gen.dbText 2 3 = .ok [1, 1, 0, 1]) :
     ∃ g, UPoly.parse { F := binOps 3 11 "b", varName := "X", modulus := none }
